@@ -253,14 +253,21 @@ func (g *gen) arith(t Ty, d int) *Expr {
 			// or (rarely) a clamped expression whose negative values are skipped at run time
 			if g.chance(85, "pow-lit") {
 				g.cnt["constructed:int-pow-exponent-small-literal"]++
+				if g.chance(30, "pow-large") {
+					// exponents with several set bits, powers of two and their neighbours (the
+					// result is the wrapping product whatever the exponent; all fit every type)
+					return bin(op, t, a, litInt(t, int64(powExps[g.intn(len(powExps), "pow-exp-large")])))
+				}
 				return bin(op, t, a, litInt(t, int64(g.intn(5, "pow-exp"))))
 			}
-			return bin(op, t, a, bin("%", t, g.expr(t, d-1), litInt(t, int64(2+g.intn(3, "pow-mod")))))
+			return bin(op, t, a, bin("%", t, g.expr(t, d-1), litInt(t, int64(2+g.intn(14, "pow-mod")))))
 		}
 		return bin(op, t, a, g.expr(t, d-1))
 	}
 	return bin(op, t, a, g.expr(t, d-1))
 }
+
+var powExps = []int{5, 6, 7, 8, 9, 10, 11, 12, 13, 14, 15, 16, 17, 19, 21, 23, 27, 31, 32, 33, 47, 63, 64}
 
 var cmpOps = []string{"==", "!=", "<", ">", "<=", ">="}
 
